@@ -65,8 +65,13 @@ TBigReq ==
   /\ BigRequestOk(R.total, R.want, R.got, R.err, R.complete, R.panic)
   /\ UNCHANGED <<cvars, corr, expect>>
 
+TBigShrink ==
+  /\ IsEv("bigshrink")
+  /\ BigShrinkOk(R.want, R.got, R.window_ok, R.err, R.panic)
+  /\ UNCHANGED <<cvars, corr, expect>>
+
 TInit == l = 1 /\ CInit /\ corr = <<FALSE, 0, 0, 0>> /\ expect = <<FALSE, <<>>>>
-TNext == TBegin \/ Skipping \/ TStep \/ TStream \/ TBigReq
+TNext == TBegin \/ Skipping \/ TStep \/ TStream \/ TBigReq \/ TBigShrink
 TSpec == TInit /\ [][TNext]_tvars
 
 Accepted ==
